@@ -1,7 +1,268 @@
-//! mvh_parsers — not built yet.
+//! mvh_parsers — C05: every parser of untrusted bytes, run on arbitrary buffers in an isolated worker.
+//!   bases <out.ndjson>                         conforming base images written by mila's own serializers
+//!   random <bases.ndjson> <out.ndjson> <n>     random buffers and random (structure-blind) mutations of the bases
+//!   run <inputs.ndjson> <out.ndjson> --from k  all entry points on every input (supervised: see vlib.isolated)
+use indexmap::IndexMap;
+use mila::{ASetFile, AssetBinary, AssetSpec, BinArchive, Endian, TextArchive, TextArchiveFormat};
+use mvh::proj;
 use mvh::util::*;
+use serde_json::{json, Value};
+
+fn outcome<T, E>(r: Result<Result<T, E>, String>) -> (String, Option<T>) {
+    match r {
+        Ok(Ok(v)) => ("ok".to_string(), Some(v)),
+        Ok(Err(_)) => ("err".to_string(), None),
+        Err(p) => (format!("panic {}", p), None),
+    }
+}
+
+/// run one entry point: parse, then (if accepted) re-serialize; report outcome, largest allocation, reser outcome
+fn entry<T>(parse: impl FnOnce() -> Result<T, String>, reser: impl FnOnce(&T) -> Result<(), String>) -> Value {
+    alloc_reset();
+    let t = std::time::Instant::now();
+    let (o, v) = outcome(catch(parse));
+    let max_alloc = alloc_max();
+    let mut r = "none".to_string();
+    if let Some(v) = v {
+        r = match catch(|| reser(&v)) {
+            Ok(Ok(())) => "ok".to_string(),
+            Ok(Err(_)) => "err".to_string(),
+            Err(p) => format!("panic {}", p),
+        };
+    }
+    json!({"outcome": o, "max_alloc": max_alloc, "reser": r, "ms": t.elapsed().as_millis() as u64})
+}
+
+fn run_all(bytes: &[u8]) -> Value {
+    let mut out = serde_json::Map::new();
+    let s = |e: &dyn std::fmt::Display| e.to_string();
+    for (name, e) in [("bin_le", Endian::Little), ("bin_be", Endian::Big)] {
+        out.insert(
+            name.to_string(),
+            entry(|| BinArchive::from_bytes(bytes, e).map_err(|x| s(&x)), |a| a.serialize().map(|_| ()).map_err(|x| s(&x))),
+        );
+    }
+    for (name, f, e) in [
+        ("text_sjis_le", TextArchiveFormat::ShiftJIS, Endian::Little),
+        ("text_sjis_be", TextArchiveFormat::ShiftJIS, Endian::Big),
+        ("text_uni_le", TextArchiveFormat::Unicode, Endian::Little),
+        ("text_uni_be", TextArchiveFormat::Unicode, Endian::Big),
+    ] {
+        out.insert(
+            name.to_string(),
+            entry(|| TextArchive::from_bytes(bytes, f, e).map_err(|x| s(&x)), |a| a.serialize().map(|_| ()).map_err(|x| s(&x))),
+        );
+    }
+    out.insert("arc".to_string(), entry(|| mila::arc::from_bytes(bytes).map_err(|x| s(&x)), |_| Ok(())));
+    out.insert(
+        "pack".to_string(),
+        entry(|| mila::fe9_arc::parse(bytes).map_err(|x| s(&x)), |m| mila::fe9_arc::serialize(m).map(|_| ()).map_err(|x| s(&x))),
+    );
+    out.insert(
+        "aset".to_string(),
+        entry(
+            || {
+                let a = BinArchive::from_bytes(bytes, Endian::Little).map_err(|x| s(&x))?;
+                ASetFile::from_archive(&a).map_err(|x| s(&x))
+            },
+            |v| v.serialize().map(|_| ()).map_err(|x| s(&x)),
+        ),
+    );
+    out.insert(
+        "asset".to_string(),
+        entry(
+            || {
+                let a = BinArchive::from_bytes(bytes, Endian::Little).map_err(|x| s(&x))?;
+                AssetBinary::from_archive(&a).map_err(|x| s(&x))
+            },
+            |v| v.serialize().map(|_| ()).map_err(|x| s(&x)),
+        ),
+    );
+    Value::Object(out)
+}
+
+fn run(inputs: &str, out_path: &str, from: usize) {
+    let cases = read_ndjson(inputs);
+    run_isolated(&cases, from, out_path, |_, c| {
+        let bytes = json_to_bytes(&c["bytes"]);
+        json!({"id": c["id"], "out": run_all(&bytes)})
+    });
+}
+
+// ---- base images ---------------------------------------------------------------------------------------
+fn bases(out_path: &str) {
+    let mut out = NdWriter::create(out_path);
+    let mut put = |name: &str, family: &str, bytes: Vec<u8>| out.put(&json!({"name": name, "family": family, "bytes": bytes}));
+    // pack
+    let mut m: IndexMap<String, Vec<u8>> = IndexMap::new();
+    put("pack-empty", "pack", mila::fe9_arc::serialize(&m).unwrap());
+    m.insert("a.bin".to_string(), vec![1, 2, 3]);
+    m.insert("表.cmp".to_string(), (0..33u8).collect());
+    m.insert("empty".to_string(), vec![]);
+    put("pack-3", "pack", mila::fe9_arc::serialize(&m).unwrap());
+    // arc (padded and unpadded), built through the archive API
+    for padded in [true, false] {
+        let pad = if padded { 0x60 } else { 0 };
+        let mut a = BinArchive::new(Endian::Little);
+        // [pad] [u32 count] [2 records of 16 bytes] [bodies]
+        a.allocate_at_end(pad + 4 + 32 + 12);
+        let base = pad;
+        if !padded {
+            // first data word must be non-zero in the unpadded variant: it is the count (2)
+        }
+        a.write_u32(base, 2).unwrap();
+        a.write_label(base, "Count").unwrap();
+        a.write_label(base + 4, "Info").unwrap();
+        let bodies = base + 4 + 32;
+        for (i, (nm, sz, off)) in [("f1", 5u32, 0u32), ("日本", 3u32, 8u32)].iter().enumerate() {
+            let r = base + 4 + 16 * i;
+            a.write_string(r, Some(nm)).unwrap();
+            a.write_u32(r + 4, i as u32).unwrap();
+            a.write_u32(r + 8, *sz).unwrap();
+            a.write_u32(r + 12, (bodies - pad) as u32 + off).unwrap();
+        }
+        a.write_bytes(bodies, &[9, 8, 7, 6, 5, 0, 0, 0, 1, 2, 3, 0]).unwrap();
+        put(if padded { "arc-padded" } else { "arc-unpadded" }, "arc", a.serialize().unwrap());
+    }
+    // aset
+    let mut aset = ASetFile::new(Some("meta".to_string()));
+    aset.anim_clip_table = (0..257).map(|i| if i % 50 == 0 { Some(format!("clip{}", i)) } else { None }).collect();
+    let mut set: Vec<Option<String>> = vec![None; 257];
+    set[0] = Some("SetLabel".to_string());
+    set[1] = Some("s1".to_string());
+    set[32] = Some("s32".to_string());
+    set[256] = Some("last".to_string());
+    aset.sets.push(set);
+    aset.sets.push(vec![None; 257]);
+    put("aset-small", "bin_le", aset.serialize().unwrap());
+    // asset binary
+    let mut ab = AssetBinary::new();
+    ab.flags = 0x01020304;
+    let mut sp = AssetSpec::new();
+    sp.name = Some("spec".to_string());
+    sp.body_model = Some("body".to_string());
+    sp.voice = Some("v".to_string());
+    sp.use_hair_color = true;
+    sp.hair_color = [1, 2, 3, 4];
+    sp.use_unk13 = true;
+    sp.unk13 = 0xdeadbeef;
+    ab.specs.push(sp);
+    let mut sp2 = AssetSpec::new();
+    sp2.name = Some("short".to_string());
+    sp2.footstep_sound = Some("step".to_string());
+    ab.specs.push(sp2);
+    put("asset-small", "bin_le", ab.serialize().unwrap());
+    // text archives
+    for (nm, f, e, fam) in [
+        ("text-uni-le", TextArchiveFormat::Unicode, Endian::Little, "bin_le"),
+        ("text-uni-be", TextArchiveFormat::Unicode, Endian::Big, "bin_be"),
+        ("text-sjis-le", TextArchiveFormat::ShiftJIS, Endian::Little, "bin_le"),
+        ("text-sjis-be", TextArchiveFormat::ShiftJIS, Endian::Big, "bin_be"),
+    ] {
+        let mut t = TextArchive::new(f, e);
+        t.set_title("Title".to_string());
+        t.set_message("MID_A", "hello");
+        t.set_message("MID_B", "あいう");
+        t.set_message("MID_C", "");
+        put(nm, fam, t.serialize().unwrap());
+    }
+    // generic bin archives with every kind of annotation
+    for (nm, e, fam) in [("bin-mixed-le", "le", "bin_le"), ("bin-mixed-be", "be", "bin_be")] {
+        let content = json!({"endian": e, "data": (1..=24u8).collect::<Vec<u8>>(), "text": [[0, [65, 66]], [12, [65, 66]], [16, [149, 92]]],
+                             "ptrs": [[4, 0], [8, 24]], "labels": [[0, [[76, 49]]], [5, [[76, 50], [76, 51]]], [24, [[69, 110, 100]]]], "cstr": [[20, [67, 83]]]});
+        let a = proj::build(&content).unwrap();
+        put(nm, fam, a.serialize().unwrap());
+    }
+    out.finish();
+}
+
+fn random(bases_path: &str, out_path: &str, n: usize) {
+    let bases = read_ndjson(bases_path);
+    let mut rng = Rng::new(seed_from_env() ^ 0xC05);
+    let mut out = NdWriter::create(out_path);
+    for k in 0..n {
+        let bytes: Vec<u8> = match k % 4 {
+            0 => {
+                // arbitrary bytes, sometimes with a plausible header
+                let len = match rng.below(6) {
+                    0 => rng.below(40),
+                    1 => rng.range(32, 4096),
+                    _ => rng.range(0, 300),
+                };
+                let mut b = rng.bytes(len);
+                if len >= 16 && rng.chance(1, 2) {
+                    // small header fields so that parsing gets past the size check
+                    for off in [4usize, 8, 12] {
+                        let v = (rng.below(len) as u32 / 4).to_le_bytes();
+                        let v = if rng.chance(1, 2) { v } else { (u32::from_le_bytes(v)).to_be_bytes() };
+                        b[off..off + 4].copy_from_slice(&v);
+                    }
+                }
+                if len >= 4 && rng.chance(1, 6) {
+                    b[0..4].copy_from_slice(b"pack");
+                }
+                b
+            }
+            _ => {
+                let mut b = json_to_bytes(&bases[rng.below(bases.len())]["bytes"]);
+                let edits = rng.range(1, 4);
+                for _ in 0..edits {
+                    if b.is_empty() {
+                        break;
+                    }
+                    match rng.below(6) {
+                        0 => {
+                            let i = rng.below(b.len());
+                            b[i] ^= 1 << rng.below(8);
+                        }
+                        1 => {
+                            let i = rng.below(b.len());
+                            b[i] = *rng.pick(&[0u8, 0xff, 0x80, 0x7f, 1]);
+                        }
+                        2 => {
+                            // stomp an aligned word
+                            let i = rng.below(b.len() / 4 + 1) * 4;
+                            if i + 4 <= b.len() {
+                                let v: u32 = *rng.pick(&[0u32, 1, 0xffff_ffff, 0x8000_0000, 0x7fff_ffff, 0x4000_0000, 0xffff_fffc, 0x100, b.len() as u32]);
+                                let w = if rng.chance(1, 2) { v.to_le_bytes() } else { v.to_be_bytes() };
+                                b[i..i + 4].copy_from_slice(&w);
+                            }
+                        }
+                        3 => {
+                            let cut = rng.below(b.len());
+                            b.truncate(cut);
+                        }
+                        4 => {
+                            // splice a slice of itself somewhere else
+                            let i = rng.below(b.len());
+                            let j = rng.below(b.len());
+                            let l = rng.below(16).min(b.len() - i.max(j));
+                            let chunk: Vec<u8> = b[i..i + l].to_vec();
+                            b[j..j + l].copy_from_slice(&chunk);
+                        }
+                        _ => {
+                            let extra = rng.below(9);
+                            let tail = rng.bytes(extra);
+                            b.extend(tail);
+                        }
+                    }
+                }
+                b
+            }
+        };
+        out.put(&json!({"id": format!("random-{}", k), "bytes": bytes}));
+    }
+    out.finish();
+}
 
 fn main() {
     install_panic_hook();
-    usage("mvh_parsers: not implemented yet");
+    let args: Vec<String> = std::env::args().skip(1).collect();
+    let a: Vec<&str> = args.iter().map(|s| s.as_str()).collect();
+    match a.as_slice() {
+        ["bases", out] => bases(out),
+        ["random", b, out, n] => random(b, out, n.parse().unwrap()),
+        ["run", inputs, out, "--from", k] => run(inputs, out, k.parse().unwrap()),
+        _ => usage("mvh_parsers bases|random|run ..."),
+    }
 }
